@@ -12,5 +12,85 @@ try:
     assert abs(mpmath.e - mpmath.exp(1)) < mpmath.mpf(10) ** -45
 except Exception as e:
     print("mpmath unavailable:", e); ok = False
+
+# ---- nonintegral_ref.py (C15 / C16): fixed known answers -------------------------------------
+def _t(name, cond):
+    global ok
+    if not cond:
+        print("selftest FAILED:", name); ok = False
+try:
+    import os
+    sys.path.insert(0, os.path.dirname(os.path.abspath(__file__)))
+    import nonintegral_ref as R
+    import math_exact as X
+    P = R.P
+    mpmath.mp.dps = 80
+    def close(v, true, tol):
+        return abs(mpmath.mpf(v) / mpmath.mpf(P) - true) <= mpmath.mpf(tol)
+    # primitives: floor-scaling multiply, truncating division
+    _t("scale floors", R.scale(-1) == -1 and R.scale(-P) == -1 and R.scale(-P - 1) == -2 and R.scale(2 * P - 1) == 1)
+    _t("scale == python floor division", all(R.scale(v) == v // P for v in (-3 * P + 7, -7, 0, 7, 5 * P + 1)))
+    _t("fdiv truncates", R.fdiv(-P, 3 * P) == -(P // 3) and R.fdiv(P, 3 * P) == P // 3 and R.fdiv(-P, -3 * P) == P // 3)
+    _t("tdivmod", R.tdivmod(-7, 2) == (-3, -1) and R.tdivmod(7, -2) == (-3, 1))
+    # e to 34 places as produced by the published algorithm (also the one value pinned by pallas' own unit test)
+    _t("exp(1)", R.fmt(R.ref_exp(P)[0]) == "2.7182818284590452353602874043083282")
+    _t("exp(0)", R.ref_exp(0) == (P, 0, 0))
+    _t("exp(-1) = trunc(1/e)", R.ref_exp(-P)[0] == R.fdiv(P, R.ref_exp(P)[0]) and close(R.ref_exp(-P)[0], mpmath.exp(-1), "1e-24"))
+    _t("exp(10) true value", close(R.ref_exp(10 * P)[0], mpmath.exp(10), "1e-18") and R.ref_exp(10 * P)[2] == 10)
+    _t("exp scaling n = ceil(x)", R.ref_exp(10 * P + 1)[2] == 11 and R.ref_exp(P - 1)[2] == 1)
+    _t("exp below 1e-24 is exactly 1", R.ref_exp(R.EPS - 1)[0] == P and R.ref_exp(R.EPS)[0] == P + R.EPS)
+    # ln: brackets and values
+    # (the initial bracket (-1, 1) is kept when x == e exactly: published behaviour)
+    _t("find_e brackets", R.find_e(R.E() + 1) == 1 and R.find_e(R.E()) == 0 and R.find_e(R.E() - 1) == 0 and R.find_e(P) == 0 and R.find_e(P - 1) == -1 and R.find_e(10 * P) == 2 and R.find_e(P // 10) == -3)
+    _t("ln(1) = 0", R.ref_ln(P)[0] == 0)
+    _t("ln(2)", R.fmt(R.ref_ln(2 * P)[0]).startswith("0.693147180559945309417232") and close(R.ref_ln(2 * P)[0], mpmath.log(2), "1e-24"))
+    _t("ln(e) ~ 1", close(R.ref_ln(R.E())[0], 1, "1e-24"))
+    _t("ln(0.95)", close(R.ref_ln(95 * P // 100)[0], mpmath.log(mpmath.mpf("0.95")), "1e-24"))
+    _t("ln domain", R.ref_ln(0) is None and R.ref_ln(-P) is None)
+    # pow
+    _t("pow identities", R.ref_pow(7 * P, 0)[0] == P and R.ref_pow(P, 5 * P)[0] == P and R.ref_pow(7 * P, P)[0] == 7 * P and R.ref_pow(0, 3 * P)[0] == 0 and R.ref_pow(0, -P)[0] is None)
+    _t("sqrt(0.9)", close(R.ref_pow(9 * P // 10, P // 2)[0], mpmath.sqrt(mpmath.mpf("0.9")), "1e-24"))
+    _t("2^10", close(R.ref_pow(2 * P, 10 * P)[0], 1024, "1e-18"))
+    _t("(-2)^3 negative, (-2)^2 positive", close(R.ref_pow(-2 * P, 3 * P)[0], -8, "1e-20") and close(R.ref_pow(-2 * P, 2 * P)[0], 4, "1e-20"))
+    # exp_cmp: triples worked out by hand from the published loop
+    _t("exp_cmp GT by hand", R.ref_exp_cmp(P, 1000, 3, 10 * P) == (2 * P, "GT", 1))
+    _t("exp_cmp LT by hand", R.ref_exp_cmp(P, 1000, 3, 0) == (2 * P, "LT", 1))
+    _t("exp_cmp max_n 0", R.ref_exp_cmp(P, 0, 3, 3 * P) == (P, "UNKNOWN", 0))
+    r = R.ref_exp_cmp(P // 2, 1000, 3, 2 * P)
+    _t("exp_cmp e^0.5 < 2", r[1] == "GT" and r[2] <= 6)
+    r = R.ref_exp_cmp(P, 1000, 3, R.E())
+    _t("exp_cmp tie with e is UNKNOWN until the terms vanish", r[1] == "UNKNOWN" and abs(r[0] - R.E()) < 10 ** 12)
+    _t("printing", R.fmt(-5) == "-0.0000000000000000000000000000000005" and R.parse_printed("-0.0000000000000000000000000000000005") == -5 and R.parse_printed("01.0000000000000000000000000000000000") is None)
+    # the oracle as a whole on synthetic events: a wrong digit and a wrong conclusion must be flagged
+    acc = R.Acc("C15")
+    good = R.fmt(R.ref_exp(P)[0])
+    R.check_c15({"op": "exp", "args": [str(P)], "result": good, "panic": None}, acc)
+    _t("C15 oracle accepts the right digits", not acc.violations and acc.evaluations == 1)
+    R.check_c15({"op": "exp", "args": [str(P)], "result": good[:-1] + "3", "panic": None}, acc)
+    _t("C15 oracle flags one wrong last digit", list(acc.violations) == ["C15:exp:digits-differ:pos-1to100"])
+    acc = R.Acc("C16")
+    R.check_c16({"op": "exp_cmp", "args": [str(P), str(10 * P)], "result": R.fmt(2 * P), "panic": None, "extra": {"max_n": 1000, "bound": 3, "iterations": 1, "estimation": "GT"}}, acc)
+    _t("C16 oracle accepts", not acc.violations)
+    R.check_c16({"op": "exp_cmp", "args": [str(P), str(10 * P)], "result": R.fmt(2 * P), "panic": None, "extra": {"max_n": 1000, "bound": 3, "iterations": 1, "estimation": "LT"}}, acc)
+    _t("C16 oracle flags a wrong LT", "C16:exp_cmp:wrong-LT:x-le-1.2" in acc.violations)
+
+    # ---- math_exact.py (C17) ----------------------------------------------------------------
+    _t("expected_print", X.expected_print(-5, 1) == "-0.5" and X.expected_print(5, 0) == "5.0" and X.expected_print(-1234, 3) == "-1.234" and X.expected_print(7, 3) == "0.007")
+    _t("parse_print", X.parse_print("-0.5", 1) == (-5, None) and X.parse_print("-0.0", 1)[0] is None and X.parse_print("1.50", 1)[0] is None and X.parse_print("01.5", 1)[0] is None and X.parse_print("5.0", 0) == (5, None))
+    _t("trunc_div", X.trunc_div(-7, 2) == -3 and X.trunc_div(7, -2) == -3 and X.trunc_div(-7, -2) == 3)
+    def run(ev):
+        a = X.Acc("C17"); X.check(ev, a); return sorted(a.violations)
+    E = lambda op, p, a, r, v="-", x=None: {"op": op, "v": v, "p": p, "a": [str(i) for i in a], "r": r, "x": x if x is not None else {"rp": p}, "panic": None}
+    _t("round tie either way", run(E("round", 1, [15], "2.0")) == [] and run(E("round", 1, [15], "1.0")) == [] and run(E("round", 1, [15], "3.0")) != [])
+    _t("round p0 defect shape", run(E("round", 0, [5], "6.0")) == ["C17:round:farther-than-half:p0"] and run(E("round", 0, [5], "5.0")) == [])
+    _t("floor of -0.5", run(E("floor", 1, [-5], "-1.0")) == [] and run(E("floor", 1, [-5], "0.0")) != [])
+    _t("ceil of -0.5 is 0 without sign", run(E("ceil", 1, [-5], "0.0")) == [] and run(E("ceil", 1, [-5], "-0.0")) != [])
+    _t("mul floors", run(E("mul", 34, [-1, 1], "-0.0000000000000000000000000000000001", "owned")) == [] and run(E("mul", 34, [-1, 1], "0.0000000000000000000000000000000000", "owned")) != [])
+    _t("div truncates", run(E("div", 34, [-1, 3 * 10 ** 34], "0.0000000000000000000000000000000000", "owned")) == [] and run(E("div", 34, [-1, 3 * 10 ** 34], "-0.0000000000000000000000000000000001", "owned")) != [])
+    _t("print sign with zero integer part", run(E("print", 3, [-862], "-0.862")) == [] and run(E("print", 3, [-862], "0.862")) != [])
+    _t("cmp", run(E("cmp", 2, [-5, 3], "Less", x={"eq": False, "lt": True, "ge": False})) == [] and run(E("cmp", 2, [-5, 3], "Greater", x={"eq": False, "lt": False, "ge": True})) != [])
+except Exception as e:
+    import traceback; traceback.print_exc()
+    print("math oracle selftest crashed:", e); ok = False
 print("oracles selftest:", "ok" if ok else "FAILED")
 sys.exit(0 if ok else 1)
